@@ -272,6 +272,249 @@ def rewrite_lines(desc, m, pkg_dir, skip_spaces=None):
     return out
 
 
+# ----------------------------------------------------------------------------- the per-occurrence correspondence
+
+_COMPS = (ast.ListComp, ast.SetComp, ast.DictComp)
+
+
+class _Mismatch(Exception):
+    pass
+
+
+def _comp_targets(node):
+    return sorted(set(t.id for g in node.generators for t in ast.walk(g.target) if isinstance(t, ast.Name)))
+
+
+def _arg_names(a):
+    res = [x.arg for x in list(a.posonlyargs) + list(a.args) + list(a.kwonlyargs)]
+    for x in (a.vararg, a.kwarg):
+        if x is not None:
+            res.append(x.arg)
+    return res
+
+
+def bound_in_function(fn):
+    """names Python binds in the scope of a function / lambda: parameters, assigned names, loop variables of `for`
+    statements, nested `def`s, imports, and walrus targets (also those inside its comprehensions and generator
+    expressions, which bind in the enclosing function).  No `global` / `nonlocal` / class scopes (not generated)."""
+    names = set(_arg_names(fn.args))
+
+    def visit(node, in_comp):
+        if isinstance(node, (ast.FunctionDef, ast.AsyncFunctionDef, ast.ClassDef)):
+            names.add(node.name)
+            return
+        if isinstance(node, ast.Lambda):
+            return
+        if isinstance(node, ast.NamedExpr):
+            names.add(node.target.id)
+            visit(node.value, in_comp)
+            return
+        if isinstance(node, _COMPS + (ast.GeneratorExp,)):
+            for ch in ast.iter_child_nodes(node):
+                visit(ch, True)
+            return
+        if isinstance(node, ast.Name):
+            if isinstance(node.ctx, (ast.Store, ast.Del)) and not in_comp:
+                names.add(node.id)
+            return
+        if isinstance(node, (ast.Import, ast.ImportFrom)):
+            for al in node.names:
+                names.add((al.asname or al.name).split(".")[0])
+            return
+        if isinstance(node, ast.ExceptHandler) and node.name:
+            names.add(node.name)
+        for ch in ast.iter_child_nodes(node):
+            visit(ch, in_comp)
+    for st in (fn.body if isinstance(fn.body, list) else [fn.body]):
+        visit(st, False)
+    return sorted(names)
+
+
+def occurrences(fn):
+    """-> [(Name node, chain)] for every Name of the formula; chain = [(kind, bound names, node)] innermost first,
+    kind 'c' for a list / set / dict comprehension (inlined, no symbol table), 't' for generator expressions,
+    lambdas and functions"""
+    res = []
+
+    def walk(node, chain):
+        if isinstance(node, ast.Name):
+            res.append((node, chain))
+            return
+        if isinstance(node, _COMPS + (ast.GeneratorExp,)):
+            kind = "c" if isinstance(node, _COMPS) else "t"
+            inner = [(kind, _comp_targets(node), node)] + chain
+            gens = node.generators
+            walk(gens[0].iter, chain)               # the first iterable belongs to the enclosing scope
+            for k, g in enumerate(gens):
+                walk(g.target, inner)
+                if k:
+                    walk(g.iter, inner)
+                for c in g.ifs:
+                    walk(c, inner)
+            if isinstance(node, ast.DictComp):
+                walk(node.key, inner)
+                walk(node.value, inner)
+            else:
+                walk(node.elt, inner)
+            return
+        if isinstance(node, (ast.Lambda, ast.FunctionDef)):
+            for d in list(node.args.defaults) + [x for x in node.args.kw_defaults if x is not None]:
+                walk(d, chain)
+            inner = [("t", bound_in_function(node), node)] + chain
+            for st in (node.body if isinstance(node.body, list) else [node.body]):
+                walk(st, inner)
+            return
+        for ch in ast.iter_child_nodes(node):
+            walk(ch, chain)
+    top = [("t", bound_in_function(fn), fn)]
+    for st in (fn.body if isinstance(fn.body, list) else [fn.body]):
+        walk(st, top)
+    return res
+
+
+def _merged_names(scope_node):
+    """names bound by the inlined comprehensions that sit directly in the scope (not inside a nested lambda /
+    function / generator expression): `symtable` may list them as locals of the scope (PEP 709 merges them in)"""
+    res = set()
+
+    def visit(node):
+        for ch in ast.iter_child_nodes(node):
+            if isinstance(ch, (ast.Lambda, ast.FunctionDef, ast.GeneratorExp)):
+                continue
+            if isinstance(ch, _COMPS):
+                res.update(_comp_targets(ch))
+            visit(ch)
+    visit(scope_node)
+    return res
+
+
+def pair_nodes(a, b, out):
+    """walk the formula (a) and the exported method (b) in parallel: -> out[id(Name node of a)] = 'self' | 'bare'"""
+    if isinstance(a, ast.Name):
+        if isinstance(b, ast.Attribute) and isinstance(b.value, ast.Name) and b.value.id == "self" and b.attr == a.id:
+            out[id(a)] = "self"
+            return
+        if isinstance(b, ast.Name) and b.id == a.id:
+            out[id(a)] = "bare"
+            return
+        raise _Mismatch()
+    if isinstance(a, ast.Subscript) and isinstance(b, ast.Call):
+        # `cells[x, y]` was turned into `self.cells(x, y)`
+        pair_nodes(a.value, b.func, out)
+        elts = a.slice.elts if isinstance(a.slice, ast.Tuple) else [a.slice]
+        if len(elts) != len(b.args) or b.keywords:
+            raise _Mismatch()
+        for x, y in zip(elts, b.args):
+            pair_nodes(x, y, out)
+        return
+    if type(a) is not type(b):
+        raise _Mismatch()
+    for (fa, va), (fb, vb) in zip(ast.iter_fields(a), ast.iter_fields(b)):
+        if isinstance(va, list):
+            if not isinstance(vb, list) or len(va) != len(vb):
+                raise _Mismatch()
+            for x, y in zip(va, vb):
+                if isinstance(x, ast.AST):
+                    pair_nodes(x, y, out)
+        elif isinstance(va, ast.AST):
+            if not isinstance(vb, ast.AST):
+                raise _Mismatch()
+            pair_nodes(va, vb, out)
+
+
+def observed_rewrites(fn, meth):
+    """formula node (Lambda | FunctionDef) x exported FunctionDef -> {id(Name node): 'self' | 'bare'}"""
+    out = {}
+    a_args, b_args = fn.args, meth.args
+    if not b_args.args or b_args.args[0].arg != "self":
+        raise _Mismatch()
+    for x, y in zip(a_args.defaults, b_args.defaults):
+        pair_nodes(x, y, out)
+    if isinstance(fn, ast.Lambda):
+        if len(meth.body) != 1 or not isinstance(meth.body[0], ast.Return):
+            raise _Mismatch()
+        pair_nodes(fn.body, meth.body[0].value, out)
+    else:
+        if len(fn.body) != len(meth.body):
+            raise _Mismatch()
+        for x, y in zip(fn.body, meth.body):
+            pair_nodes(x, y, out)
+    return out
+
+
+def exported_method_nodes(pkg_dir, path):
+    d = pkg_dir
+    for nm in path[:-1]:
+        d = os.path.join(d, "_m_" + nm)
+    tree = ast.parse(open(os.path.join(d, "_mx_classes.py")).read())
+    for node in tree.body:
+        if isinstance(node, ast.ClassDef) and node.name == "_c_" + path[-1]:
+            return {fn.name: fn for fn in node.body if isinstance(fn, ast.FunctionDef)}
+    return {}
+
+
+def occurrence_lines(desc, m, pkg_dir, stats, skip_spaces=None):
+    """-> [(driver line, observed 'self'|'bare', where)] for every occurrence of a name that sits directly in an
+    inlined comprehension: the scopes around it up to the first one with a symbol table (own analysis of the
+    formula with `ast`, independent of libcst / symtable), and what the exporter did with THAT occurrence"""
+    out = []
+    by_path = dict(W.iter_spaces(desc))
+    for path, sp in W.iter_spaces(desc):
+        if skip_spaces and ".".join(path) in skip_spaces:
+            continue
+        try:
+            static = W._get(m, ".".join(path))
+            cells = list(static.cells.keys())
+            refs = [k for k in static.refs.keys() if k[0] != "_"]
+            spaces = list(static.spaces.keys())
+            methods = exported_method_nodes(pkg_dir, path)
+        except Exception:       # noqa: BLE001
+            continue
+        params = []
+        for k in range(len(path), 0, -1):
+            f = by_path[path[:k]].get("formula")
+            if f and not isinstance(f, str):
+                params += [p for p, _ in f if p not in params]
+        tail = "cells=%s refs=%s spaces=%s params=%s" % (",".join(cells), ",".join(refs), ",".join(spaces),
+                                                         ",".join(params))
+        for cn in cells:
+            c = static.cells[cn]
+            meth = methods.get(("_f_" + cn) if c.is_cached else cn)
+            if meth is None:
+                continue
+            try:
+                fn = G._func_node(c.formula.source)
+                occ = occurrences(fn)
+                if not any(ch[0][0] == "c" for _n, ch in occ):
+                    continue
+                seen = observed_rewrites(fn, meth)
+            except (_Mismatch, SyntaxError, AttributeError):
+                stats["rwo_unpaired_formulas"] = stats.get("rwo_unpaired_formulas", 0) + 1
+                continue
+            merged = {}
+            for node, chain in occ:
+                if chain[0][0] != "c" or id(node) not in seen:
+                    continue
+                k = next(i for i, fr in enumerate(chain) if fr[0] == "t")
+                n = node.id
+                bound_on_path = any(n in fr[1] for fr in chain)
+                tnode = chain[k][2]
+                if not bound_on_path:
+                    if id(tnode) not in merged:
+                        merged[id(tnode)] = _merged_names(tnode)
+                    if n in merged[id(tnode)]:
+                        # a comprehension beside the path binds the name: what the table of the scope says about it
+                        # is an artefact of PEP 709's merging (and the model raises UnboundLocalError on 3.12.1)
+                        stats["rwo_skipped_merged_name"] = stats.get("rwo_skipped_merged_name", 0) + 1
+                        continue
+                non_global = sorted(set(x for fr in chain[k:] for x in fr[1]))
+                frames = ["c:" + ",".join(fr[1]) for fr in chain[:k]] + ["t:" + ",".join(non_global)]
+                line = "rwo %s f=%s %s" % (n, ";".join(frames), tail)
+                out.append((line, seen[id(node)], "%s.%s:%s@%d:%d" % (".".join(path), cn, n, node.lineno,
+                                                                       node.col_offset)))
+    return out
+
+
 # ----------------------------------------------------------------------------- the reference-value correspondence
 
 def _emit_class(node):
@@ -450,6 +693,7 @@ class Case:
         self.problem = None       # (what, detail) for failures before the comparison
         self.triggers = {}
         self.rw = []
+        self.rwo = []
         self.look = []
         self.refval = []
 
@@ -488,6 +732,11 @@ def prepare(case, rng, tmp, stats, fixed_queries=None):
                                     skip_spaces=set(k for k, v in case.triggers.items() if v))
         except Exception as e:      # noqa: BLE001
             stats["rw_extraction_failed"] = stats.get("rw_extraction_failed", 0) + 1
+        try:
+            case.rwo = occurrence_lines(desc, m, os.path.join(tmp, case.pkg), stats,
+                                        skip_spaces=set(k for k, v in case.triggers.items() if v))
+        except Exception as e:      # noqa: BLE001
+            stats["rwo_extraction_failed"] = stats.get("rwo_extraction_failed", 0) + 1
         try:
             case.refval = refval_lines(desc, m, os.path.join(tmp, case.pkg))
         except Exception as e:      # noqa: BLE001
@@ -591,6 +840,9 @@ def run_batch(ctx, cases, out, stats, samples, rngs=None, fixed=None):
             for line, obs, where in case.rw:
                 driver_lines.append(line)
                 driver_meta.append(("rw", case, obs, where))
+            for line, obs, where in case.rwo:
+                driver_lines.append(line)
+                driver_meta.append(("rwo", case, obs, where))
             for line, obs, where, tyname in case.refval:
                 driver_lines.append(line)
                 driver_meta.append(("refval", case, obs, (where, tyname)))
@@ -608,6 +860,11 @@ def run_batch(ctx, cases, out, stats, samples, rngs=None, fixed=None):
                     pred = mo.split(" ")[0]
                     stats["rw_" + pred] = stats.get("rw_" + pred, 0) + 1
                     if obs != pred:
+                        out.disagree({"desc": case.desc, "line": line, "where": where}, 0, obs, mo, layer="export")
+                elif kind == "rwo":
+                    stats["rwo_decisions"] = stats.get("rwo_decisions", 0) + 1
+                    stats["rwo_" + mo] = stats.get("rwo_" + mo, 0) + 1
+                    if obs != mo:
                         out.disagree({"desc": case.desc, "line": line, "where": where}, 0, obs, mo, layer="export")
                 elif kind == "refval":
                     stats["refval_decisions"] += 1
